@@ -32,6 +32,22 @@ def main():
         sh("git -C /repo worktree add --detach %s %s" % (wt, os.environ.get("EVAL_REPO_AT", "HEAD")))   # EVAL_REPO_AT: /repo as it was when the change was written
         patch = os.path.join(src, "patch.diff")
         r = sh("git -C %s apply %s" % (wt, patch))
+        rebased = os.path.join(VERIF, "seeded", sid, "patch.rebased.diff")
+        if r.returncode != 0 and os.path.exists(rebased) and not os.environ.get("EVAL_REPO_AT"):
+            # the same change re-expressed against the current /repo (later fix: commits touched its context)
+            r = sh("git -C %s apply %s" % (wt, rebased))
+            meta["applied_rebased_patch"] = r.returncode == 0
+        if r.returncode != 0:
+            # /repo has moved on (fix: commits) since the change was written: three-way merge,
+            # accepted only when it leaves no conflict
+            r = sh("git -C %s apply --3way %s" % (wt, patch))
+            conflicts = sh("git -C %s diff --name-only --diff-filter=U" % wt).stdout.strip()
+            markers = sh("grep -rl '^<<<<<<< ' %s/src || true" % wt).stdout.strip()
+            if r.returncode == 0 and not conflicts and not markers:
+                meta["applied_by_three_way_merge"] = True
+                sh("git -C %s reset -q" % wt)
+            else:
+                r.returncode = 1
         meta["applies"] = r.returncode == 0
         if r.returncode != 0:
             meta["apply_error"] = r.stdout[-500:]
